@@ -143,23 +143,23 @@ func (h *handler44) Activated() {
 		fn()
 	}
 }
-func (h *handler44) Deactivated()  {}
-func (h *handler44) count() int    { h.mu.Lock(); defer h.mu.Unlock(); return h.disconnected }
+func (h *handler44) Deactivated() {}
+func (h *handler44) count() int   { h.mu.Lock(); defer h.mu.Unlock(); return h.disconnected }
 
 // ---------------------------------------------------------------- fixture (sched pass)
 
 type f44 struct {
-	e     *dualrun.Env
-	base  *conn44
-	mc    *minecraftConn
-	h     *handler44
-	h2    *handler44 // a second session handler (configuration state) for the handler-swap scenarios
+	e    *dualrun.Env
+	base *conn44
+	mc   *minecraftConn
+	h    *handler44
+	h2   *handler44 // a second session handler (configuration state) for the handler-swap scenarios
 	// noHandler: the connection never had a session handler, so there is no session to tear down; the
 	// rest of the teardown (underlying connection closed once, writes refused) is still due
 	noHandler bool
-	mu    sync.Mutex
-	ops   []*op44
-	limit int
+	mu        sync.Mutex
+	ops       []*op44
+	limit     int
 
 	cancelParent context.CancelFunc
 }
